@@ -289,7 +289,20 @@ def check_guarded_fields(ctx, rid, cls, only_fields=None, doc=None, only_functio
             site = f.loc(st)
             inst = f.qname
             if base not in ("this", "*this"):
-                # field of another object of the same class: not used today
+                # field of ANOTHER object of the same class (swap, move assignment, merge): the same discipline with that
+                # object's own mutex
+                if base and re.match(r"^p:[A-Za-z_]\w*$", base) and ent.get("kind") == "guarded" and ent.get("guard"):
+                    pos = f.pos_of(st)
+                    acc, _u = effective_access(eng, f, st)
+                    need = ent["r"] if acc in READ_KINDS else ent["w"]
+                    og = base + "." + ent["guard"]
+                    ok = need != "never" and pos is not None and la.holds(pos, og, need)
+                    ctx.ob(rid, ok, site, "access to %s of the other object is covered by that object's %s" % (name, ent["guard"]),
+                           "" if ok else "needs %s in mode %s; held here: %s" % (og, need, _fmt_held(la, pos)), fn=top.label, inst=inst)
+                    n += 1
+                    continue
+                if ent.get("kind") in ("mutex", "condvar", "immutable", "atomic", "selfsync", "protocol"):
+                    continue
                 ctx.ob(rid, False, site, "%s.%s accessed on an object other than this" % (cls, name),
                        "base path %s is not analysed" % base, fn=top.label, inst=inst)
                 n += 1
